@@ -401,6 +401,16 @@ func (f *Frame) checks(class string) bool {
 	return ok
 }
 
+// checkProps: the properties an automatic check class is claimed for by the contract of the function being verified
+// (not of an inlined callee)
+func (f *Frame) checkProps(class string) ([]string, bool) {
+	if f.con == nil || f.oblPfx != "" {
+		return nil, false
+	}
+	p, ok := f.con.Checks[class]
+	return p, ok
+}
+
 func tdiv(x, y T) T {
 	// Go's truncated division on mathematical integers
 	return mk(SInt, "(ite (>= %[1]s 0) (ite (> %[2]s 0) (div %[1]s %[2]s) (- (div %[1]s (- %[2]s)))) (ite (> %[2]s 0) (- (div (- %[1]s) %[2]s)) (div (- %[1]s) (- %[2]s))))", x.S, y.S)
